@@ -67,7 +67,7 @@ ASSUMPTIONS = [
     "unmasked pixel, 0 elsewhere and outside the frame (written independently in the harness)",
 ]
 EXPLORER_OPTS = {"timeout_ms": 20000, "max_paths": 100000, "logic": "QF_NRA"}
-BUDGET_S = {"quick": 900, "thorough": 2300}
+BUDGET_S = {"quick": 900, "thorough": 3000}
 
 FINDING_NEG = "matrix-nonpositive-skipped"
 FINDING_SIM = "simulated-dataset-psf-renormalised"
@@ -741,6 +741,10 @@ PATTERNS = {
     "checker": ["01010", "10101", "01010", "10101", "01010"],
     "full": ["00000", "00000", "00000", "00000", "00000"],
     "lshape": ["0111", "0111", "0000"],
+    # 7x7 interiors (thorough tier): annulus with a 3x3 hole, five separate islands, a one-pixel-wide spiral
+    "ring7": ["1000001", "0000000", "0011100", "0011100", "0011100", "0000000", "1000001"],
+    "islands7": ["0011100", "0011101", "1111111", "0111011", "0111011", "1111111", "0010011"],
+    "spiral7": ["0000000", "1111110", "0000010", "0111010", "0100010", "0111110", "0000000"],
 }
 
 
@@ -761,16 +765,20 @@ def cases(tier):
     # (a) Convolver on every interior mask (outer ring of half a kernel masked)
     plan = [((3, 3), (3, 3), 2, 5), ((3, 5), (2, 3), 1, 1), ((5, 3), (3, 2), 1, 1), ((1, 3), (2, 3), 1, 1), ((3, 1), (3, 2), 1, 1), ((1, 1), (2, 2), 1, 0)]
     if not quick:
-        plan = [((3, 3), (3, 4), 1, 7), ((3, 3), (3, 3), 2, 4), ((3, 5), (3, 3), 2, 4), ((5, 3), (3, 3), 2, 4), ((5, 5), (3, 3), 1, 4),
-                ((1, 3), (3, 3), 1, 3), ((3, 1), (3, 3), 1, 3), ((1, 1), (3, 3), 1, 3), ((1, 5), (2, 4), 1, 2), ((5, 1), (4, 2), 1, 2),
-                ((7, 3), (2, 3), 1, 1), ((3, 7), (3, 2), 1, 1), ((7, 7), (2, 2), 1, 0)]
+        plan = [((3, 3), (3, 4), 2, 7), ((3, 3), (4, 3), 2, 7), ((3, 3), (3, 5), 1, 9),
+                ((3, 5), (3, 4), 1, 7), ((5, 3), (4, 3), 1, 7), ((3, 5), (3, 3), 2, 4), ((5, 3), (3, 3), 2, 4), ((5, 5), (3, 3), 1, 4),
+                ((1, 3), (3, 4), 1, 6), ((3, 1), (4, 3), 1, 6), ((1, 1), (3, 4), 1, 6),
+                ((1, 5), (3, 3), 1, 4), ((5, 1), (3, 3), 1, 4), ((7, 3), (3, 3), 1, 4), ((3, 7), (3, 3), 1, 4), ((7, 7), (3, 3), 1, 4),
+                ((1, 7), (3, 3), 1, 4), ((7, 1), (3, 3), 1, 4), ((5, 7), (2, 3), 1, 2), ((7, 5), (3, 2), 1, 2)]
     for (ky, kx), (ih, iw), ncols, split in plan:
         out.append(("case_convolver", {"H": ih + 2 * (ky // 2), "W": iw + 2 * (kx // 2), "ky": ky, "kx": kx, "ncols": ncols}, {"split": split}))
     # (b) Convolver on listed larger masks (holes, several components)
     listed = [("hole", (3, 3)), ("two", (3, 3)), ("checker", (3, 5)), ("full", (5, 3)), ("lshape", (5, 5)), ("hole", (1, 7)), ("two", (7, 1))]
     if not quick:
         listed += [("hole", (5, 5)), ("two", (5, 5)), ("checker", (5, 5)), ("full", (3, 3)), ("hole", (3, 5)), ("two", (5, 3)), ("lshape", (7, 7)),
-                   ("checker", (7, 3)), ("hole", (3, 7)), ("two", (7, 5)), ("lshape", (5, 7))]
+                   ("checker", (7, 3)), ("hole", (3, 7)), ("two", (7, 5)), ("lshape", (5, 7)),
+                   ("ring7", (3, 3)), ("ring7", (5, 5)), ("ring7", (7, 7)), ("islands7", (3, 3)), ("islands7", (3, 5)), ("islands7", (5, 3)),
+                   ("islands7", (7, 7)), ("spiral7", (3, 3)), ("spiral7", (5, 5)), ("spiral7", (1, 7)), ("spiral7", (7, 1)), ("full", (7, 7))]
     for name, (ky, kx) in listed:
         H, W, mk = pattern_mask(name, ky, kx)
         out.append(("case_convolver", {"H": H, "W": W, "ky": ky, "kx": kx, "ncols": 1, "masks": mk, "pattern": name}))
@@ -782,7 +790,9 @@ def cases(tier):
                 continue
             H, W = (2, 3) if (ky + kx) % 4 == 0 else (3, 2)
             out.append(("case_whole_frame", {"H": H, "W": W, "ky": ky, "kx": kx}))
-    for (H, W, ky, kx) in [(4, 5, 3, 3), (5, 4, 3, 5), (4, 4, 5, 3), (1, 1, 3, 3), (1, 4, 3, 3), (3, 1, 1, 3)] + ([] if quick else [(6, 7, 5, 5), (5, 6, 7, 7), (7, 5, 1, 7), (6, 6, 7, 1)]):
+            if not quick:
+                out.append(("case_whole_frame", {"H": 3, "W": 3, "ky": ky, "kx": kx}, {"split": 3}))
+    for (H, W, ky, kx) in [(4, 5, 3, 3), (5, 4, 3, 5), (4, 4, 5, 3), (1, 1, 3, 3), (1, 4, 3, 3), (3, 1, 1, 3)] + ([] if quick else [(6, 7, 5, 5), (5, 6, 7, 7), (7, 5, 1, 7), (6, 6, 7, 1), (8, 9, 3, 3), (9, 8, 5, 7), (8, 8, 7, 5), (2, 9, 7, 7), (9, 2, 3, 5), (1, 9, 1, 7)]):
         out.append(("case_whole_frame", {"H": H, "W": W, "ky": ky, "kx": kx, "masks": np.zeros((H, W), dtype=bool).tolist()}))
     for (ky, kx) in [(2, 2), (2, 3), (3, 2), (1, 2), (2, 1), (4, 3), (3, 4), (4, 4), (6, 5), (5, 6), (2, 7)]:
         H, W, mk = pattern_mask("lshape", ky + 1 - ky % 2, kx + 1 - kx % 2)
@@ -794,11 +804,15 @@ def cases(tier):
     if not quick:
         sims += [((3, 3), (3, 3), False, None, 1.0), ((5, 5), None, False, "two", 1.0), ((1, 3), (2, 3), False, None, 1.0), ((3, 1), (3, 2), False, None, 1.0),
                  ((7, 3), None, False, "lshape", 1.0), ((3, 7), None, False, "checker", 1.0), ((3, 5), None, True, "lshape", 2.0), ((5, 3), None, True, "lshape", 2.0),
-                 ((3, 3), (3, 3), False, None, 0.5), ((5, 5), None, False, "two", 2.0), ((3, 3), None, False, "hole", -1.0), ((3, 5), None, True, "hole", -0.25)]
+                 ((3, 3), (3, 3), False, None, 0.5), ((5, 5), None, False, "two", 2.0), ((3, 3), None, False, "hole", -1.0), ((3, 5), None, True, "hole", -0.25),
+                 ((3, 3), (3, 4), False, None, 1.0), ((3, 3), (3, 3), True, None, 2.0), ((3, 3), (3, 3), False, None, -1.0), ((3, 5), (3, 3), False, None, 1.0),
+                 ((5, 3), (3, 3), False, None, 2.0), ((5, 5), (2, 3), False, None, 0.5), ((1, 5), (2, 3), True, None, 0.5), ((5, 1), (3, 2), False, None, 4.0),
+                 ((7, 7), None, False, "lshape", 1.0), ((5, 7), None, True, "lshape", 2.0), ((3, 3), None, False, "ring7", 0.25), ((5, 5), None, False, "spiral7", 1.0),
+                 ((3, 5), None, True, "islands7", -2.0)]
     for (ky, kx), inter, normalize, pat, total in sims:
         if pat is None:
             out.append(("case_simulate", {"H": inter[0] + 2 * (ky // 2), "W": inter[1] + 2 * (kx // 2), "ky": ky, "kx": kx, "normalize": normalize, "total": total},
-                        {"split": 2 if inter[0] * inter[1] <= 6 else 4}))
+                        {"split": 2 if inter[0] * inter[1] <= 6 else (4 if inter[0] * inter[1] <= 9 else 7)}))
         else:
             H, W, mk = pattern_mask(pat, ky, kx)
             out.append(("case_simulate", {"H": H, "W": W, "ky": ky, "kx": kx, "normalize": normalize, "total": total, "masks": mk, "pattern": pat}))
